@@ -665,7 +665,13 @@ func (e *dbEngine) Generate(profile string, seed uint64, tier string) (*Plan, er
 		if tier == "thorough" {
 			n = 10 + g.r.IntN(40)
 		}
-		g.genCrash(n, profile)
+		if profile == "crash-sync" && g.r.IntN(3) == 0 {
+			// a third of the plans: concurrent committers, crash forks only
+			g.genCrashConc()
+			atomics = true
+		} else {
+			g.genCrash(n, profile)
+		}
 	}
 	p := &Plan{Engine: "dbsim", Profile: profile, Seed: seed, Tier: tier}
 	p.Sched = genSched(&g.r, atomics)
